@@ -189,7 +189,11 @@ def run(ctx: Ctx, env):
                 fn = t.funcs[0] if t.funcs else "contains"
                 ctx.check(esc_ok, "R4.like-wildcards-escaped", key,
                           f"filter text is embedded in the LIKE pattern `{t.text()[:80]}` with transforms {reps}: {why}", t.where,
-                          f"{fn}(name, 'a_b')  (must not match 'aXb')")
+                          f"{fn}(name, 'a_b')  (must not match 'aXb')",
+                          # the recorded finding is the doubling of % and _ without ESCAPE; another set of replacements is another
+                          # defect. Only told apart when every transform of the text is a plain replace (else: the known one)
+                          **({"variants": ["replaces " + ", ".join(f"{a!r}->{b!r}" for a, b in sorted(set(reps)))]}
+                             if all(a and a[0] in ("replace", "str") for a in tr) else {}))
     ctx.floor("LIKE templates with embedded text", n_like, 3)
 
     # ---- clause 5: function table ---------------------------------------------------------------------------------------
